@@ -530,7 +530,8 @@ func reifyMergeValue(
 			// the field keeps the (pointer to the) unpacker it holds
 			return oldValue, nil
 		}
-		return old, nil
+		// an element of a slice, array or map may be a pointer to the unpacker
+		return pointerize(t, old.Type(), old), nil
 	}
 
 	switch baseType.Kind() {
